@@ -61,6 +61,28 @@ def n1(prog, ctx):
                     blocks.setdefault(id(st._parent) if not isinstance(st._parent, ast.If) else (id(st._parent), any(st is x for x in st._parent.body)), {})["suffix"] = (st, v.split(".")[1])
                 elif v.startswith("TranscriptModelType.novel"):
                     blocks.setdefault(id(st._parent) if not isinstance(st._parent, ast.If) else (id(st._parent), any(st is x for x in st._parent.body)), {})["type"] = (st, v.split(".")[1])
+        rename = {}
+        if not blocks:
+            # the decision may live in a helper method returning (type, suffix): follow `a, b = self.helper(path)`
+            meths = prog.methods_of(cls)
+            for st in walk_no_nested(f):
+                if isinstance(st, ast.Assign) and isinstance(st.targets[0], ast.Tuple) and isinstance(st.value, ast.Call) \
+                        and isinstance(st.value.func, ast.Attribute) and dotted(st.value.func.value) == "self" and st.value.func.attr in meths:
+                    h = meths[st.value.func.attr]
+                    hp = [a.arg for a in h.args.args][1:]
+                    for r in walk_no_nested(h):
+                        if isinstance(r, ast.Return) and isinstance(r.value, ast.Tuple):
+                            d = {}
+                            for e in r.value.elts:
+                                v = dotted(e) or ""
+                                if v.startswith("TranscriptNaming.") and v.endswith("_transcript_suffix"):
+                                    d["suffix"] = (r, v.split(".")[1])
+                                elif v.startswith("TranscriptModelType.novel"):
+                                    d["type"] = (r, v.split(".")[1])
+                            if d:
+                                blocks[id(r)] = d
+                                d["helper"] = h
+                    rename.update({pn: src(a) for pn, a in zip(hp, st.value.args)})
         if not blocks:
             ctx.fail("N1", f, q, "suffix/type", "no id-suffix / model-type assignments found")
             continue
@@ -75,7 +97,7 @@ def n1(prog, ctx):
                 ctx.fail("N1", s_st, q, "%s ; %s" % (src(t_st), src(s_st)), "suffix %s is paired with type %s (must be %s)" % (suf, typ, PAIR.get(suf)))
                 continue
             # guard of the branch
-            facts = flow.guards_of(s_st, stop=f)
+            facts = flow.guards_of(s_st, stop=d.get("helper", f))
             sub = None
             for g in reversed(facts):
                 r = subset_idiom(g.test)
@@ -88,6 +110,7 @@ def n1(prog, ctx):
                     ctx.fail("N1", s_st, q, src(s_st), "the %s label is not decided by an 'all introns annotated' subset test" % suf)
                     continue
                 P, K, holds, g = sub
+                P = rename.get(P, P)
                 want = suf.startswith("nic")
                 if holds != want:
                     ctx.fail("N1", s_st, q, "%s under %s" % (src(s_st), g.text()),
